@@ -4,6 +4,7 @@ use serde_json::Value;
 
 mod alloclog;
 mod chain;
+mod classify;
 mod common;
 mod fairness;
 mod framing;
@@ -62,6 +63,7 @@ fn main() {
         "cancel" => framing::run_c07(tier),
         "outframe" => outframe::run(tier),
         "limits" => limits::run(tier),
+        "classify" => classify::run(tier),
         "jsoneq" => jsoneq::run(tier),
         "server" => server::run_c08(tier),
         "fairness" => fairness::run(tier),
@@ -81,6 +83,7 @@ fn replay(v: &Value, path: &str) -> i32 {
         "C02" => outframe::replay(v),
         "C06" | "C11" => chain::replay(v),
         "C17" => limits::replay(v),
+        "C04" => classify::replay(v),
         "C03" => jsoneq::replay(v),
         "C08" | "C09" | "C10" => server::replay(v),
         "C18" => fairness::replay(v),
